@@ -152,6 +152,9 @@ SpecialKinds(fam, n) ==
     THEN ZeroKinds \cup {"neg", "far"} \cup (IF fam = "VonMises" THEN {"wrap"} ELSE {})
          \cup (IF fam = "LogNormal" THEN {"tiny", "huge"} ELSE {})     \* mu = 1e-9 / 25: exp/log round trip
     ELSE {"int", "far"}
+         \* generalised gamma, m fixed at the generating value, default start values, n = 1000
+         \* own-family data of small magnitude (medians 0.065 .. 0.25): three generating vectors
+         \cup (IF fam = "GenGamma" /\ n = "m" THEN {"smalldata_a", "smalldata_b", "smalldata_c"} ELSE {})
 SpecialFitCasesOf(fam) ==
     UNION {{<<fam, n, k>> : k \in SpecialKinds(fam, n)} : n \in Names(fam)}
 SpecialFitCases == UNION {SpecialFitCasesOf(fam) : fam \in Families}
